@@ -188,6 +188,22 @@ Theorem C13_retention_exact_duplicates_refuted :
 Proof. exact RetentionExactProofs.retention_exact_duplicates_refuted. Qed.
 Print Assumptions C13_retention_exact_duplicates_refuted.
 
+(* loop state on ARBITRARY streams (unsorted, with drop prefixes): the skip key is always the
+   last key, so a skip is only cleared by an entry of another key, at which point the version
+   count restarts — it never carries over to the next key and a key never resumes counting *)
+Theorem C13_skip_is_last_step : forall p st x st' b,
+  skip_is_last st -> filter_step p st x = (st', b) -> skip_is_last st'.
+Proof. exact RetentionExactProofs.skip_is_last_step. Qed.
+Print Assumptions C13_skip_is_last_step.
+
+Theorem C13_count_restarts_after_skip : forall p st x st' b k,
+  skip_is_last st -> cs_skip st = Some k -> e_key x <> k ->
+  has_any_prefix (cp_drop p) x = false ->
+  filter_step p st x = (st', b) ->
+  cs_nver st' = (if counted p x then 1 else 0).
+Proof. exact RetentionExactProofs.count_restarts_after_skip. Qed.
+Print Assumptions C13_count_restarts_after_skip.
+
 (* A concrete stream: watermark 10, NumVersionsToKeep 2, now = 100; meta bits: 1 delete,
    4 discard-earlier, 8 merge. Keys [1] < [1;2] < [2] ([1] is a byte-prefix of [1;2]). *)
 Definition C13_stream : src :=
